@@ -301,7 +301,17 @@ func (o *optimizer) etaReduction() {
 				lit, f := ctx.TypeOf(c.Node().(ast.Expr)), ctx.TypeOf(fun)
 				return lit != nil && f != nil && types.Identical(lit, f)
 			}
-			if matched(ctx, params, args) && stable(ctx, fun, false) && sameType() {
+			// the function of a deferred call must stay a frame of its own:
+			// recover() in f only stops a panic when f itself is the deferred function
+			deferred := func() bool {
+				if len(ctx.Stack) < 3 {
+					return false
+				}
+				call, _ := ctx.Stack[1].(*ast.CallExpr)
+				d, _ := ctx.Stack[2].(*ast.DeferStmt)
+				return call != nil && d != nil && d.Call == call && call.Fun == c.Node()
+			}
+			if matched(ctx, params, args) && stable(ctx, fun, false) && sameType() && !deferred() {
 				c.Replace(fun)
 			}
 		},
